@@ -15,6 +15,11 @@
    ref <name|-> <k> <disp>                      k = index of an earlier line (item, func, import, forward, export)
    expr <name|-> <k>                            k = index of an earlier efunc line
    lref <name|-> <k> <lab> <lab2|-> <disp>      k = index of an lfunc line (earlier or later)
+   afunc <name> <k> <disp>                      expression function returning (address of line k's item) + disp;
+                                                an `expr` line may refer to it (printed as delta like a ref)
+   module <a-first|b-first>                     the following lines form a second module; an import there whose
+                                                name is defined (and exported) in the first module must resolve
+                                                to that definition; the token gives the order of MIR_load_module
    end
 */
 #include "mir.h"
@@ -82,6 +87,7 @@ typedef struct {
   MIR_item_t item;
   MIR_label_t labs[MAX_LAB];
   int nlab;
+  int mod; /* 0 = first module, 1 = second */
 } cline_t;
 static cline_t lines[MAX_LINES];
 static int nlines;
@@ -171,6 +177,17 @@ static void build_item (MIR_context_t ctx, int i) {
     }
     MIR_append_insn (ctx, l->item, MIR_new_ret_insn (ctx, 1, op));
     MIR_finish_func (ctx);
+  } else if (!strcmp (k, "afunc")) {
+    MIR_type_t rt = MIR_T_P;
+    MIR_reg_t r;
+    l->item = MIR_new_func_arr (ctx, l->tok[1], 1, &rt, 0, NULL);
+    r = MIR_new_func_reg (ctx, l->item->u.func, MIR_T_I64, "r");
+    MIR_append_insn (ctx, l->item,
+                     MIR_new_insn (ctx, MIR_ADD, MIR_new_reg_op (ctx, r),
+                                   MIR_new_ref_op (ctx, lines[atoi (l->tok[2])].item),
+                                   MIR_new_int_op (ctx, strtoll (l->tok[3], NULL, 10))));
+    MIR_append_insn (ctx, l->item, MIR_new_ret_insn (ctx, 1, MIR_new_reg_op (ctx, r)));
+    MIR_finish_func (ctx);
   } else if (!strcmp (k, "lfunc")) {
     MIR_type_t rt = MIR_T_I64;
     MIR_var_t arg = {MIR_T_I64, "a", 0};
@@ -230,8 +247,16 @@ static char *target_addr (int t) {
     int d = find_def (lines[t].tok[1]);
     return d < 0 ? NULL : lines[d].item->addr;
   }
-  if (is_kind (t, "import")) return ext_area[t];
+  if (is_kind (t, "import")) { /* the definition in the other module of the case, else the external */
+    int d = find_def (lines[t].tok[1]);
+    return d >= 0 && lines[d].mod != lines[t].mod ? (char *) lines[d].item->addr : ext_area[t];
+  }
   return lines[t].item->addr;
+}
+
+static int target_addr_is_external (int t) {
+  int d = find_def (lines[t].tok[1]);
+  return !(d >= 0 && lines[d].mod != lines[t].mod);
 }
 
 static int item_pos (MIR_module_t m, MIR_item_t item) {
@@ -278,9 +303,20 @@ static int label_addr (int t, int lab, int64_t *res) {
   return 0;
 }
 
+/* section heads of a module (only among the items the case created: link-time temporaries follow them) */
+static void print_secs (MIR_module_t m) {
+  int pos = 0, n = 0;
+  for (int i = 0; i < nlines; i++)
+    if (!is_kind (i, "module") && lines[i].item != NULL && lines[i].item->module == m) n++;
+  for (MIR_item_t it = DLIST_HEAD (MIR_item_t, m->items); it != NULL && pos < n;
+       it = DLIST_NEXT (MIR_item_t, it), pos++)
+    if (it->section_head_p) printf ("sec %d size=%ld\n", pos, arec_size (it->addr));
+}
+
 static void run_case (const char *id, const char *engine) {
   MIR_context_t ctx;
-  MIR_module_t m;
+  MIR_module_t m, mods[2] = {NULL, NULL};
+  int nmods = 1, b_first_p = 0;
   int gen_p = strcmp (engine, "interp") != 0;
   int regen_p = strcmp (engine, "regen") == 0;
 
@@ -298,12 +334,25 @@ static void run_case (const char *id, const char *engine) {
       lines[i].nlab = atoi (lines[i].tok[2]);
       for (int j = 0; j < lines[i].nlab; j++) lines[i].labs[j] = MIR_new_label (ctx);
     }
-  m = MIR_new_module (ctx, "m");
-  for (int i = 0; i < nlines; i++) build_item (ctx, i);
+  mods[0] = MIR_new_module (ctx, "m");
+  for (int i = 0; i < nlines; i++) {
+    lines[i].mod = nmods - 1;
+    if (is_kind (i, "module")) {
+      MIR_finish_module (ctx);
+      mods[1] = MIR_new_module (ctx, "m2");
+      nmods = 2;
+      b_first_p = strcmp (lines[i].tok[1], "b-first") == 0;
+      lines[i].mod = 1;
+      continue;
+    }
+    build_item (ctx, i);
+  }
   MIR_finish_module (ctx);
   for (int i = 0; i < nlines; i++)
-    if (is_kind (i, "import")) MIR_load_external (ctx, lines[i].tok[1], ext_area[i]);
-  MIR_load_module (ctx, m);
+    if (is_kind (i, "import") && target_addr_is_external (i)) MIR_load_external (ctx, lines[i].tok[1], ext_area[i]);
+  if (nmods == 2 && b_first_p) MIR_load_module (ctx, mods[1]);
+  MIR_load_module (ctx, mods[0]);
+  if (nmods == 2 && !b_first_p) MIR_load_module (ctx, mods[1]);
   if (gen_p) MIR_gen_init (ctx);
   MIR_link (ctx,
             !gen_p                          ? MIR_set_interp_interface
@@ -323,8 +372,16 @@ static void run_case (const char *id, const char *engine) {
   for (int i = 0; i < nlines; i++) {
     cline_t *l = &lines[i];
     MIR_item_t item = l->item, head;
-    int pos = item_pos (m, item), hpos, size;
-    uint8_t *p = item->addr;
+    int pos, hpos, size;
+    uint8_t *p;
+    if (is_kind (i, "module")) {
+      print_secs (mods[0]);
+      printf ("module\n");
+      continue;
+    }
+    m = mods[l->mod];
+    pos = item_pos (m, item);
+    p = item->addr;
     if (!data_kind_p (i)) {
       printf ("other %d\n", pos);
       continue;
@@ -337,7 +394,7 @@ static void run_case (const char *id, const char *engine) {
     else if (is_kind (i, "bss"))
       size = atoi (l->tok[2]);
     else if (is_kind (i, "expr"))
-      size = own_type_size (lines[atoi (l->tok[2])].tok[2]);
+      size = is_kind (atoi (l->tok[2]), "afunc") ? 8 : own_type_size (lines[atoi (l->tok[2])].tok[2]);
     else
       size = 8;
     printf ("item %d %s sec=%d off=%lld size=%d ", pos, l->tok[0], hpos,
@@ -347,6 +404,12 @@ static void run_case (const char *id, const char *engine) {
       memcpy (&v, p, 8);
       if (item->u.ref_data->load_addr != item->addr) printf ("load_addr=bad ");
       printf ("delta=%" PRId64 "\n", (int64_t) ((uint64_t) v - (uint64_t) target_addr (atoi (l->tok[2]))));
+    } else if (is_kind (i, "expr") && is_kind (atoi (l->tok[2]), "afunc")) {
+      int64_t v;
+      memcpy (&v, p, 8);
+      if (item->u.expr_data->load_addr != item->addr) printf ("load_addr=bad ");
+      printf ("delta=%" PRId64 "\n",
+              (int64_t) ((uint64_t) v - (uint64_t) target_addr (atoi (lines[atoi (l->tok[2])].tok[2]))));
     } else if (is_kind (i, "lref")) {
       int t = atoi (l->tok[2]), lab = atoi (l->tok[3]);
       int64_t v, disp = strtoll (l->tok[5], NULL, 10);
@@ -377,12 +440,7 @@ static void run_case (const char *id, const char *engine) {
       printf ("\n");
     }
   }
-  {
-    int pos = 0;
-    for (MIR_item_t it = DLIST_HEAD (MIR_item_t, m->items); it != NULL && pos < nlines;
-         it = DLIST_NEXT (MIR_item_t, it), pos++)
-      if (it->section_head_p) printf ("sec %d size=%ld\n", pos, arec_size (it->addr));
-  }
+  print_secs (mods[nmods - 1]);
   printf ("end\n");
   fflush (stdout);
   if (gen_p || regen_p) MIR_gen_finish (ctx);
